@@ -1202,9 +1202,16 @@ where
 		}
 		if let Some(e) = tx.ttl_cutoff_height {
 			if tip.0 >= e {
+				// under the account the entry belongs to: log ids are per account, and the
+				// active account may have been switched since the entries were collected
 				wallet_lock!(wallet_inst, w);
-				let parent_key_id = w.parent_key_id();
-				tx::cancel_tx(&mut **w, keychain_mask, &parent_key_id, Some(tx.id), None)?;
+				tx::cancel_tx(
+					&mut **w,
+					keychain_mask,
+					&tx.parent_key_id,
+					Some(tx.id),
+					None,
+				)?;
 			}
 		}
 	}
@@ -1342,11 +1349,6 @@ where
 	C: NodeClient + 'a,
 	K: Keychain + 'a,
 {
-	let parent_key_id = {
-		wallet_lock!(wallet_inst, w);
-		w.parent_key_id()
-	};
-
 	let mut client = {
 		wallet_lock!(wallet_inst, w);
 		w.w2n_client().clone()
@@ -1366,6 +1368,9 @@ where
 			// to this entry (a change output re-spent before it confirmed no longer does)
 			wallet_lock!(wallet_inst, w);
 			let id = tx.id;
+			// (the entry's own account: the active account may have been switched since the
+			// entries were collected)
+			let parent_key_id = tx.parent_key_id.clone();
 			let change_pending = w.iter().any(|o| {
 				o.root_key_id == parent_key_id
 					&& o.tx_log_entry == Some(id)
@@ -1387,7 +1392,7 @@ where
 				let mut batch = w.batch(keychain_mask)?;
 				tx.confirmed = true;
 				tx.update_confirmation_ts();
-				batch.save_tx_log_entry(tx.clone(), &parent_key_id)?;
+				batch.save_tx_log_entry(tx.clone(), &tx.parent_key_id)?;
 				batch.commit()?;
 			}
 		} else {
